@@ -14,7 +14,8 @@ Case kinds (all JSON, all randomness from the run's PRNG):
               the EMNIST/CIFAR classifiers, and every fedjax.training.tasks configuration built with the
               download functions stubbed by synthetic in-memory clients): equal to an independent numpy
               reference that ignores the dataset's PAD positions, unchanged when the predictions at PAD
-              positions change, zero on all-PAD rows, row independent (oracle only)
+              positions change, zero on all-PAD rows, row independent; the reduction of the per-token
+              losses (mask, sum/mean, 1/expected_length) is also compared with the exact Lean model
   so_tok      several StackOverflow preprocessors created from ONE tokenizer with different max_length
               values in various create/use interleavings (directly, through the raw tf.function, and
               lazily through an SQLite-backed FederatedData): every output has its OWN max_length and
@@ -121,6 +122,18 @@ class C20(core.Property):
     self._models = {}
     self._tokenizers = {}
     self.table = [int(v) for v in np.asarray(shakespeare.TABLE).tolist()]
+    # The Lean tokeniser model uses PAD/BOS/EOS = 0/1/2 and character labels in [3, V).  The property
+    # does not fix the numeric values of the reserved labels, so implementation labels are compared
+    # through the order-preserving relabelling that sends the dataset's PAD, BOS, EOS (public module
+    # constants) to 0, 1, 2 and the remaining labels to 3.. (the identity for the present values).
+    V = int(shakespeare.VOCAB_SIZE)
+    sp = [int(shakespeare.PAD), int(shakespeare.BOS), int(shakespeare.EOS)]
+    self.sigma = None
+    if len(set(sp)) == 3 and all(0 <= v < V for v in sp):
+      sig = {v: i for i, v in enumerate(sp)}
+      for k, v in enumerate(v for v in range(V) if v not in sp):
+        sig[v] = 3 + k
+      self.sigma = np.array([sig[v] for v in range(V)], dtype=np.int64)
     tf.get_logger().setLevel('ERROR')   # re-tracing notices of the tokenizer's tf.function
 
   # ------------------------------------------------------------------------------------------
@@ -171,8 +184,8 @@ class C20(core.Property):
              'B': 4 if quick else rng.choice([2, 4, 5]), 'row': rng.randrange(0, 4), 'L': 3 if quick else rng.choice([2, 3, 5])}
 
   def _gen_shk(self, rng):
-    kind = rng.randrange(8)
-    if kind == 0:
+    kind = rng.randrange(25)
+    if kind == 0:  # outside the domain (nothing is demanded; the harness must cope)
       L = rng.choice([0, 1])
     else:
       L = rng.choice([2, 2, 3, 4, 5, 7, 8, 16, 50])
@@ -191,7 +204,7 @@ class C20(core.Property):
     return {'kind': 'shk', 'L': L, 'snips': [s.hex() for s in snips]}
 
   def _gen_emnist_id(self, rng):
-    k = rng.randrange(5)
+    k = rng.choice([0, 0, 0, 1, 1, 1, 1, 2, 3, 4])   # 2..4: malformed, outside the domain
     n = rng.choice([2099, 2100, 2101, 2599, 2600, 0, 9999, rng.randrange(10000)])
     tail = b'f%04d_%02d' % (n, rng.randrange(100))
     if k == 0:
@@ -214,12 +227,12 @@ class C20(core.Property):
             'spread': rng.choice([1, 1, 2, 3, 5, 9, 20, 60])}
 
   def _gen_cifar(self, rng):
-    k = rng.randrange(10)
-    if k == 0:
+    k = rng.randrange(20)
+    if k == 0:     # outside the domain (nothing is demanded; the harness must cope)
       h, w = rng.choice([(0, 5), (5, 0), (33, 5), (5, 33), (-1, 4)])
-    elif k <= 2:
-      h = w = 24
     elif k <= 4:
+      h = w = 24
+    elif k <= 8:
       h, w = rng.choice([1, 2, 32]), rng.choice([1, 2, 32])
     else:
       h, w = rng.randrange(1, 33), rng.randrange(1, 33)
@@ -427,38 +440,43 @@ class C20(core.Property):
     problems, corr = [], []
     t = self.table
     V = int(shk.VOCAB_SIZE)
-    if (shk.PAD, shk.BOS, shk.EOS) != (0, 1, 2) and len({shk.PAD, shk.BOS, shk.EOS}) != 3:
+    if len({int(shk.PAD), int(shk.BOS), int(shk.EOS)}) != 3:
       problems.append('PAD/BOS/EOS not distinct')
     specials = {int(shk.PAD), int(shk.BOS), int(shk.EOS)}
     if len(t) != 256 or any(v in specials for v in t):
       problems.append('TABLE maps a byte to a reserved label')
-    if any(not (0 <= v < V) for v in t):
-      problems.append('TABLE value outside [0, VOCAB_SIZE)')
-    if int(shk.OOV) != V - 1:
-      problems.append('OOV != VOCAB_SIZE - 1')
+    if any(not (0 <= v < V) for v in t) or any(not (0 <= v < V) for v in specials):
+      problems.append('TABLE value / reserved label outside [0, VOCAB_SIZE)')
     inv = [b for b in range(256) if t[b] != shk.OOV]
     if len({t[b] for b in inv}) != len(inv):
       problems.append('two in-vocabulary bytes share a label')
-    for ch in b'abcdefghijklmnopqrstuvwxyzABCDEFGHIJKLMNOPQRSTUVWXYZ0123456789 ':
-      if t[ch] == shk.OOV:
-        problems.append(f'byte {ch} is out of vocabulary')
-        break
-    # documented behaviour of _build_look_up_table on random vocabularies
-    rs = np.random.RandomState(case['seed'])
-    for _ in range(5):
-      vocab = bytes(rs.randint(0, 256, size=rs.randint(0, 12)).tolist())
-      nr = int(rs.randint(0, 5))
-      tab, vs = shk._build_look_up_table(vocab, nr)
-      want = [nr + len(vocab)] * 256
-      for i, c in enumerate(vocab):
-        want[c] = nr + i
-      if vs != nr + len(vocab) + 1 or [int(v) for v in tab] != want:
-        problems.append(f'_build_look_up_table({vocab!r}, {nr}) deviates from its documentation')
-    ok = ctx.drv.ask([line('c20.shk_table', t, V)])[0]
-    if ok is not True:
-      corr.append('the real TABLE does not meet the hypothesis of the tokeniser theorems (values in [3, V))')
-    if (int(shk.PAD), int(shk.BOS), int(shk.EOS)) != (0, 1, 2):
-      corr.append('model constants PAD/BOS/EOS = 0/1/2 differ from the dataset module')
+    # documented behaviour of the table builder on random vocabularies -- a private helper: checked
+    # only while a function of that name exists (a renamed/inlined helper is not a violation)
+    build = getattr(shk, '_build_look_up_table', None)
+    if build is None:
+      ctx.count('skipped:private _build_look_up_table absent')
+    else:
+      rs = np.random.RandomState(case['seed'])
+      for _ in range(5):
+        vocab = bytes(rs.randint(0, 256, size=rs.randint(0, 12)).tolist())
+        nr = int(rs.randint(0, 5))
+        try:
+          tab, vs = build(vocab, nr)
+        except TypeError:
+          ctx.count('skipped:private _build_look_up_table has another signature')
+          break
+        want = [nr + len(vocab)] * 256
+        for i, c in enumerate(vocab):
+          want[c] = nr + i
+        if vs != nr + len(vocab) + 1 or [int(v) for v in tab] != want:
+          problems.append(f'_build_look_up_table({vocab!r}, {nr}) deviates from its documentation')
+    if self.sigma is None or problems:
+      corr.append('reserved labels / TABLE do not admit the canonical relabelling used for the model comparison')
+    else:
+      ok = ctx.drv.ask([line('c20.shk_table', [int(self.sigma[v]) for v in t], V)])[0]
+      if ok is not True:
+        corr.append('the real TABLE does not meet the hypothesis of the tokeniser theorems (character labels '
+                    'disjoint from PAD/BOS/EOS and below VOCAB_SIZE)')
     return Outcome(oracle_fail='; '.join(problems[:3]) or None, corr_fail='; '.join(corr) or None,
                    key='C20/shakespeare/table', tags=('shk_table',))
 
@@ -478,21 +496,30 @@ class C20(core.Property):
     snips = [bytes.fromhex(s) for s in case['snips']]
     problems, corr = [], []
     status, out = self._run_shk(snips, L)
-    ans = ctx.drv.ask([line('c20.shk', self.table, int(shk.VOCAB_SIZE), L, [list(s) for s in snips])])[0]
     tags = ['shk', f'L={"<2" if L < 2 else ("2" if L == 2 else ">2")}', f'snips={min(len(snips), 3)}']
+    if L < 2:
+      # outside the property's domain (sequence lengths >= 2): an exception and any result are both
+      # acceptable; nothing is compared
+      ctx.count('out_of_domain:shk L<2')
+      return Outcome(nontrivial=False, tags=tuple(tags + ['out-of-domain', 'raises' if status == 'err' else 'returns']),
+                     key='C20/shakespeare/tokeniser')
     if status == 'err':
-      if L >= 2:
-        problems.append(f'preprocess_client raised {out} for sequence_length={L}')
-      if ans != 'err':
-        corr.append(f'impl raised {out}, model answers {str(ans)[:80]}')
-      return Outcome(oracle_fail='; '.join(problems) or None, corr_fail='; '.join(corr) or None,
+      return Outcome(oracle_fail=f'preprocess_client raised {out} for sequence_length={L}, snippets {snips!r}',
                      nontrivial=False, tags=tuple(tags + ['raises']), key='C20/shakespeare/tokeniser')
     x, y = out['x'], out['y']
     impl = [x.tolist(), y.tolist()]
-    if ans == 'err' or ans == 'bad-table':
-      corr.append(f'model answers {ans}, impl returned arrays')
-    elif ans != impl:
-      corr.append(f'tokeniser model {str(ans)[:200]} vs impl {str(impl)[:200]}')
+    V_ = int(shk.VOCAB_SIZE)
+    in_range = x.size == 0 or (min(x.min(), y.min()) >= 0 and max(x.max(), y.max()) < V_)
+    if self.sigma is None or not in_range:
+      ans = 'not-comparable'
+      corr.append('labels outside [0, VOCAB_SIZE) or reserved labels not distinct: no model comparison')
+    else:
+      ans = ctx.drv.ask([line('c20.shk', [int(self.sigma[v]) for v in self.table], V_, L, [list(s) for s in snips])])[0]
+      canon = [self.sigma[x].tolist() if x.size else x.tolist(), self.sigma[y].tolist() if y.size else y.tolist()]
+      if ans == 'err' or ans == 'bad-table':
+        corr.append(f'model answers {ans}, impl returned arrays')
+      elif ans != canon:
+        corr.append(f'tokeniser model {str(ans)[:200]} vs impl (reserved labels canonicalised) {str(canon)[:200]}')
     if L >= 2:
       # independent statement of the property on the real output
       PAD, BOS, EOS, V = int(shk.PAD), int(shk.BOS), int(shk.EOS), int(shk.VOCAB_SIZE)
@@ -585,26 +612,25 @@ class C20(core.Property):
                    tags=('emnist_sweep',), key='C20/emnist/domain')
 
   def _eval_emnist_id(self, case, ctx):
+    import re
     cid = bytes.fromhex(case['id'])
     got = self._domain(cid)
+    m = re.fullmatch(rb'(?:[0-9a-f]{16}:)?f(\d{4})_\d{2}', cid)
+    if m is None:
+      # not a well-formed EMNIST client id: outside the property's domain, any exception or result is acceptable
+      ctx.count('out_of_domain:emnist malformed id')
+      return Outcome(nontrivial=False, tags=('emnist_id', 'out-of-domain', 'raises' if not isinstance(got, int) else 'returns'),
+                     key='C20/emnist/domain')
     a = ctx.drv.ask([line('c20.emnist', list(cid))])[0]
     problems, corr = [], []
-    wellformed = None
-    for pre in (18, 1):
-      if len(cid) == pre + 7 and cid[pre:pre + 4].isdigit():
-        wellformed = int(cid[pre:pre + 4])
-    if wellformed is not None:
-      want = 0 if 2100 <= wellformed <= 2599 else 1
-      if got != want:
-        problems.append(f'domain_id({cid!r}) = {got}, documented ranges say {want}')
-    elif len(cid) not in (8, 25) and got != 'err':
-      problems.append(f'domain_id({cid!r}) = {got}: an id of length {len(cid)} must be rejected')
+    n = int(m.group(1))
+    want = 0 if 2100 <= n <= 2599 else 1
+    if got != want:
+      problems.append(f'domain_id({cid!r}) = {got}, documented ranges say {want}')
     if got != a:
       corr.append(f'domain_id({cid!r}): impl {got} vs model {a}')
     return Outcome(oracle_fail='; '.join(problems) or None, corr_fail='; '.join(corr) or None,
-                   nontrivial=wellformed is not None,
-                   tags=('emnist_id', 'len=%s' % (len(cid) if len(cid) in (8, 25) else 'other'), f'res={got}'),
-                   key='C20/emnist/domain')
+                   tags=('emnist_id', 'len=%d' % len(cid), f'res={got}'), key='C20/emnist/domain')
 
   # ---- CIFAR-100 ---------------------------------------------------------------------------
   def _eval_cifar(self, case, ctx):
@@ -622,81 +648,87 @@ class C20(core.Property):
       status = 'ok'
     except Exception as e:  # pylint: disable=broad-except
       out, status = None, exc_enum(e)
-    draw_enc = None
-    if status != 'ok' or not valid:
-      a = ctx.drv.ask([line('c20.tff', max(h, 0), max(w, 0), None, batch[0].tolist())])[0]
-      if valid:
-        problems.append(f'preprocess_image_tff raised {status} for crop {h}x{w}')
-      elif status != 'ValueError':
-        problems.append(f'crop {h}x{w} must be rejected with ValueError, got {status}')
-      if (a == 'err') != (status != 'ok'):
-        corr.append(f'impl {status} vs model {str(a)[:40]}')
-      return Outcome(oracle_fail='; '.join(problems) or None, corr_fail='; '.join(corr) or None,
-                     nontrivial=False, tags=tuple(tags + ['invalid-crop']), key='C20/cifar/crop')
+    if not valid:
+      # crop sizes outside 1..32 are outside the property's domain: an exception and any result are acceptable
+      ctx.count('out_of_domain:cifar crop size')
+      return Outcome(nontrivial=False, tags=tuple(tags + ['out-of-domain', 'raises' if status != 'ok' else 'returns']),
+                     key='C20/cifar/crop')
+    if status != 'ok':
+      return Outcome(oracle_fail=f'preprocess_image_tff raised {status} for crop {h}x{w}', nontrivial=False,
+                     tags=tuple(tags + ['raises']), key='C20/cifar/crop')
     if not np.array_equal(batch, snap):
       problems.append('input images mutated')
     if out.shape != (len(batch), h, w, 3) or out.dtype != np.float32:
       problems.append(f'output shape/dtype {out.shape}/{out.dtype} for crop {h}x{w}')
       return Outcome(oracle_fail='; '.join(problems), tags=tuple(tags), key='C20/cifar/crop')
-    # also through the batch wrapper (same draws): x equal, y passed through
+    # also through the batch wrapper: judged by the same oracle on its own output (its random draws need
+    # not coincide with those of another call), y passed through
     np.random.seed(case['np_seed'])
     yb = np.arange(len(batch), dtype=np.int32)
     wrapped = cifar.preprocess_batch_tff({'x': batch, 'y': yb}, crop_height=h, crop_width=w, distort=distort)
-    if not np.array_equal(wrapped['x'], out) or not np.array_equal(wrapped['y'], yb):
-      problems.append('preprocess_batch_tff differs from preprocess_image_tff on the same draws')
+    wx = np.asarray(wrapped['x'])
+    if not np.array_equal(wrapped['y'], yb):
+      problems.append('preprocess_batch_tff does not pass y through')
+    sources = [('preprocess_image_tff', out, True)]
+    if wx.shape != out.shape or wx.dtype != np.float32:
+      problems.append(f'preprocess_batch_tff output shape/dtype {wx.shape}/{wx.dtype} for crop {h}x{w}')
+    elif not np.array_equal(wx, out):   # identical arrays get the identical verdict
+      sources.append(('preprocess_batch_tff', wx, False))
 
     nontrivial = False
     lines, expect = [], []
     detail = {}
-    for n, img in enumerate(batch):
-      o = out[n].astype(np.float64)
-      if not distort:
-        win_tf = tf.image.resize_with_crop_or_pad(img[None], h, w).numpy()[0]
-        oi, oj = (32 - h) // 2, (32 - w) // 2
-        win = img[oi:oi + h, oj:oj + w, :]
-        if not np.array_equal(win, win_tf):
-          raise core.InfraError('centre-crop convention of the harness differs from TensorFlow')
-        cands = [(oi, oj, False, win)]
-      else:
-        cands = []
-        for oi in range(0, 32 - h + 1):
-          for oj in range(0, 32 - w + 1):
-            win = img[oi:oi + h, oj:oj + w, :]
-            cands.append((oi, oj, False, win))
-            cands.append((oi, oj, True, win[:, ::-1, :]))
-      stack = np.stack([c[3] for c in cands])
-      ref, adj = std_ref64(stack)
-      okm = np.all(np.abs(ref - o[None]) <= std_tol(ref, adj), axis=(1, 2, 3))
-      hit = int(np.argmax(okm)) if okm.any() else None
-      if hit is None:
-        bad, badadj = std_ref64(stack, floor='sqrt')
-        if np.all(np.abs(bad - o[None]) <= std_tol(bad, badadj), axis=(1, 2, 3)).any():
-          key = 'C20/cifar/std-floor'
-        if not detail:
-          detail = {'image': n, 'impl_first_values': o.reshape(-1)[:6].tolist(),
-                    'standardised_centre_or_first_window_first_values': ref[0].reshape(-1)[:6].tolist(),
-                    'window_first_values': stack[0].reshape(-1)[:6].tolist(),
-                    'window_std': float(stack[0].std()), 'rsqrt_n': 1 / math.sqrt(h * w * 3)}
+    for src, arr, with_model in sources:
+      for n, img in enumerate(batch):
+        o = arr[n].astype(np.float64)
         if not distort:
-          dev = float(np.abs(ref[0] - o).max())
-          problems.append(f'image {n} ({case["imgs"][n]["t"]}): eval output deviates from per-image standardisation of '
-                          f'the centre crop by {dev:.4g} (std of the crop {float(stack[0].std()):.4g}, '
-                          f'1/sqrt(n) = {1 / math.sqrt(h * w * 3):.4g})')
+          win_tf = tf.image.resize_with_crop_or_pad(img[None], h, w).numpy()[0]
+          oi, oj = (32 - h) // 2, (32 - w) // 2
+          win = img[oi:oi + h, oj:oj + w, :]
+          if not np.array_equal(win, win_tf):
+            raise core.InfraError('centre-crop convention of the harness differs from TensorFlow')
+          cands = [(oi, oj, False, win)]
         else:
-          problems.append(f'image {n} ({case["imgs"][n]["t"]}): training output is not the standardised {h}x{w} '
-                          f'sub-window at any offset/flip')
-        continue
-      oi, oj, flip, win = cands[hit]
-      # TensorFlow itself on the identified window
-      tfref = tf.image.per_image_standardization(tf.constant(win)).numpy().astype(np.float64)
-      if np.any(np.abs(tfref - o) > 2 * std_tol(ref[hit], adj[hit])):
-        problems.append(f'image {n}: deviates from tf.image.per_image_standardization by '
-                        f'{float(np.abs(tfref - o).max()):.4g}')
-      nontrivial = nontrivial or bool(win.min() != win.max())
-      tags.append('floor' if float(win.std()) < 1 / math.sqrt(win.size) else 'std')
-      if n < 2:
-        lines.append(line('c20.tff', h, w, [oi, oj, flip] if distort else None, img.tolist()))
-        expect.append((n, o, ref[hit], adj[hit]))
+          cands = []
+          for oi in range(0, 32 - h + 1):
+            for oj in range(0, 32 - w + 1):
+              win = img[oi:oi + h, oj:oj + w, :]
+              cands.append((oi, oj, False, win))
+              cands.append((oi, oj, True, win[:, ::-1, :]))
+        stack = np.stack([c[3] for c in cands])
+        ref, adj = std_ref64(stack)
+        okm = np.all(np.abs(ref - o[None]) <= std_tol(ref, adj), axis=(1, 2, 3))
+        hit = int(np.argmax(okm)) if okm.any() else None
+        if hit is None:
+          bad, badadj = std_ref64(stack, floor='sqrt')
+          if np.all(np.abs(bad - o[None]) <= std_tol(bad, badadj), axis=(1, 2, 3)).any():
+            key = 'C20/cifar/std-floor'
+          if not detail:
+            detail = {'image': n, 'impl_first_values': o.reshape(-1)[:6].tolist(),
+                      'standardised_centre_or_first_window_first_values': ref[0].reshape(-1)[:6].tolist(),
+                      'window_first_values': stack[0].reshape(-1)[:6].tolist(),
+                      'window_std': float(stack[0].std()), 'rsqrt_n': 1 / math.sqrt(h * w * 3)}
+          if not distort:
+            dev = float(np.abs(ref[0] - o).max())
+            problems.append(f'{src}: image {n} ({case["imgs"][n]["t"]}): eval output deviates from per-image standardisation of '
+                            f'the centre crop by {dev:.4g} (std of the crop {float(stack[0].std()):.4g}, '
+                            f'1/sqrt(n) = {1 / math.sqrt(h * w * 3):.4g})')
+          else:
+            problems.append(f'{src}: image {n} ({case["imgs"][n]["t"]}): training output is not the standardised {h}x{w} '
+                            f'sub-window at any offset/flip')
+          continue
+        oi, oj, flip, win = cands[hit]
+        # TensorFlow itself on the identified window
+        tfref = tf.image.per_image_standardization(tf.constant(win)).numpy().astype(np.float64)
+        if np.any(np.abs(tfref - o) > 2 * std_tol(ref[hit], adj[hit])):
+          problems.append(f'{src}: image {n}: deviates from tf.image.per_image_standardization by '
+                          f'{float(np.abs(tfref - o).max()):.4g}')
+        nontrivial = nontrivial or bool(win.min() != win.max())
+        if with_model:
+          tags.append('floor' if float(win.std()) < 1 / math.sqrt(win.size) else 'std')
+        if n < 2 and with_model:
+          lines.append(line('c20.tff', h, w, [oi, oj, flip] if distort else None, img.tolist()))
+          expect.append((n, o, ref[hit], adj[hit]))
     for (n, o, ref, adj), a in zip(expect, ctx.drv.ask(lines)):
       if a == 'err' or not isinstance(a, list):
         corr.append(f'model answers {str(a)[:40]}')
@@ -825,9 +857,13 @@ class C20(core.Property):
       if (probe['x'][0].tolist() != [ids[1], ids[3][0], 3, ids[0]] or
           probe['y'][0].tolist() != [ids[3][0], 3, ids[2], ids[0]]):
         problems.append('PAD/BOS/EOS/OOV conventions differ from what the tokeniser emits')
-      d_model = inspect.signature(self.m_so.create_lstm_model).parameters['vocab_size'].default
-      d_tok = inspect.signature(so.StackoverflowTokenizer.__init__).parameters['default_vocab_size'].default
-      if d_model != d_tok:
+      pm = inspect.signature(self.m_so.create_lstm_model).parameters.get('vocab_size')
+      pt = inspect.signature(so.StackoverflowTokenizer.__init__).parameters.get('default_vocab_size')
+      d_model = pm.default if pm is not None else None
+      d_tok = pt.default if pt is not None else None
+      if d_model is None or d_tok is None or d_model is inspect.Parameter.empty or d_tok is inspect.Parameter.empty:
+        ctx.count('skipped:default vocabulary sizes not readable from the signatures')
+      elif d_model != d_tok:
         problems.append(f'default vocabulary sizes differ: model {d_model}, tokenizer {d_tok}')
       described = f'sentences {case["sents"]!r}, max_length {L}, vocab w0..w{nv - 1}'
     pad, bos, eos, oovs, V = ids
@@ -1009,7 +1045,8 @@ class C20(core.Property):
     lse = (mx + np.log(np.exp(lg - mx).sum(-1, keepdims=True)))[..., 0]
     return lse - np.take_along_axis(lg, np.asarray(y)[..., None].astype(np.int64), -1)[..., 0]
 
-  def _loss_checks(self, model, batch, V, rs, where, problems, ctx, pad=None, reduce=None, scale=None):
+  def _loss_checks(self, model, batch, V, rs, where, problems, ctx, pad=None, reduce=None, scale=None, lean=None,
+                   corr=None):
     """reference equality, PAD-position invariance, all-PAD rows, row independence of model.train_loss."""
     jnp = self.jnp
     y = np.asarray(batch['y'])
@@ -1051,6 +1088,18 @@ class C20(core.Property):
                         f'cross-entropy sums {masked.round(5).tolist()} (targets {y.tolist()})')
       if np.any(np.abs(got[~nz]) > 1e-6):
         problems.append(f'{where}: train_loss {got.round(5).tolist()} is non-zero on rows without any non-PAD target')
+    if lean is not None and corr is not None and pad is not None:
+      # the exact Lean reduction (Model/Loss.lean) on the per-token cross entropies of the oracle
+      kind, el = lean
+      rows = [[[int(t) for t in y[r]], [float(c) for c in ce[r]]] for r in range(B)]
+      a = ctx.drv.ask([line('c20.loss', kind, pad, el, rows)])[0]
+      if not isinstance(a, list) or len(a) != B:
+        corr.append(f'{where}: loss model answers {str(a)[:60]}')
+      else:
+        m = np.array([float(v) for v in a])
+        if not close(got, m):
+          corr.append(f'{where}: train_loss {got.round(5).tolist()} vs Lean reduction {m.round(5).tolist()}')
+      ctx.count('loss_model_comparisons')
     if pad is not None:
       ispad = y == pad
       if ispad.any():
@@ -1085,7 +1134,7 @@ class C20(core.Property):
   def _eval_loss(self, case, ctx):
     what = case['what']
     rs = np.random.RandomState(case['seed'])
-    problems = []
+    problems, corr = [], []
     MP = 4
 
     def padrows(a):
@@ -1105,7 +1154,7 @@ class C20(core.Property):
       where = (f'stackoverflow create_lstm_model(vocab_size={nv}, expected_length={el}) on the tokeniser output of '
                f'{case["sents"]!r} (max_length {L}, batch padded to {MP} rows)')
       self._loss_checks(model, batch, nv + 4, rs, where, problems, ctx, pad=int(self._tokenizer(nv).PAD),
-                        reduce='sum', scale=1.0 if el is None else 1.0 / el)
+                        reduce='sum', scale=1.0 if el is None else 1.0 / el, lean=('so', el), corr=corr)
       tags.append('expected_length=' + ('none' if el is None else 'set'))
     elif what == 'shk':
       snips = [bytes.fromhex(t) for t in case['snips']]
@@ -1116,7 +1165,7 @@ class C20(core.Property):
       model, _ = self._model('shakespeare_lstm')
       where = f'shakespeare create_lstm_model on the tokeniser output of {snips!r} (sequence_length {case["L"]})'
       self._loss_checks(model, batch, int(self.shk.VOCAB_SIZE), rs, where, problems, ctx, pad=int(self.shk.PAD),
-                        reduce='mean', scale=1.0)
+                        reduce='mean', scale=1.0, lean=('shk', None), corr=corr)
     elif what == 'cls':
       name = case['model']
       model, params = self._model(name)
@@ -1129,8 +1178,10 @@ class C20(core.Property):
       try:
         train, test, model = self._task(name)
       except Exception as e:  # pylint: disable=broad-except
-        return Outcome(oracle_fail=f'fedjax.training.tasks.get_task({name!r}) raises {exc_enum(e)} on synthetic clients: '
-                                   f'{str(e)[:160]}', key=f'C20/loss/task/{name}', tags=tuple(tags + [name]))
+        # the task cannot be built offline through the stubbed public loaders (load_split / default_vocab):
+        # an environment limit of this harness, not a statement of the property
+        ctx.count(f'skipped:task {name} not buildable offline ({exc_enum(e)})')
+        return Outcome(nontrivial=False, tags=tuple(tags + [name, 'skipped']), key=f'C20/loss/task/{name}')
       data = train if case['seed'] % 2 == 0 else test
       cids = sorted(data.client_ids())
       cid = cids[case['seed'] % len(cids)]
@@ -1145,7 +1196,8 @@ class C20(core.Property):
         else:
           self._loss_checks(model, batch, V, rs, where, problems, ctx, pad=pad,
                             reduce='mean' if 'SHAKESPEARE' in name else 'sum',
-                            scale=1.0 if 'SHAKESPEARE' in name else None)
+                            scale=1.0 if 'SHAKESPEARE' in name else None,
+                            lean=('shk', None) if 'SHAKESPEARE' in name else None, corr=corr)
       else:
         try:
           params = self._models.setdefault(('task-params', name), model.init(self.jax.random.PRNGKey(3)))
@@ -1159,7 +1211,7 @@ class C20(core.Property):
           else:
             self._loss_checks(model, batch, V, rs, where, problems, ctx, scale=1.0)
       tags.append(name)
-    return Outcome(oracle_fail='; '.join(problems[:2]) or None, tags=tuple(tags),
+    return Outcome(oracle_fail='; '.join(problems[:2]) or None, corr_fail='; '.join(corr[:2]) or None, tags=tuple(tags),
                    key='C20/loss/' + (case.get('task') or case.get('model') or what))
 
   # ---- StackOverflow tokeniser: one tokenizer, several preprocessors ---------------------------
